@@ -341,7 +341,7 @@ def originOf (sc : Scn) (supplied : List (Label × Nat)) (earlier : List ExecEv)
 
 /-- C01 on one run: every executed function received a full argument list of supplied /
 previously returned values with compatible labels -/
-def c01check (sc : Scn) (supplied : List (Label × Nat)) (execs : List ExecEv) : Option String :=
+def c01check (sc : Scn) (supplied : List (Label × Nat)) (execs : List ExecEv) (prior : List ExecEv := []) : Option String :=
   let rec go (done : List ExecEv) (todo : List ExecEv) : Option String :=
     match todo with
     | [] => none
@@ -362,7 +362,7 @@ def c01check (sc : Scn) (supplied : List (Label × Nat)) (execs : List ExecEv) :
               some s!"{if twin then "twin_interfaces:" else ""}f{e.fid}_param_{showLabel pa.1}_got_value_{pa.2.id}_labelled_{showLabel o}") with
           | some m => some m
           | none => go (done ++ [e]) rest
-  go [] execs
+  go prior execs
 
 def isErrRes (ts : List String) : Bool := ts.head? = some "err"
 def isOkRes (ts : List String) : Bool := ts.head? = some "ok"
